@@ -145,6 +145,17 @@ func (g *gramRun) sentence(s *sentence) {
 	}
 	if err0 != nil || n0 == nil {
 		g.find("C08", "reject", s, plain.Name, text0, fmt.Sprintf("%s: %v", spec.Name, err0))
+		if g.want("C16") {
+			// the same tokens in another trivia/case spelling are accepted: then the spelling changed the outcome
+			for _, pf := range g.profiles[1:] {
+				text, _, _ := render(s.Toks, false, pf)
+				if n, err, pan := safeCall(spec, text); pan == "" && err == nil && n != nil {
+					g.eval("C16")
+					g.find("C16", "reject", s, plain.Name, text0, fmt.Sprintf("rejected (%v) although the %s rendering %q is accepted", err0, pf.Name, text))
+					break
+				}
+			}
+		}
 		return
 	}
 	eachNode(n0, 0, func(n ast.Node, _ int) { g.stats.Kinds[kindOf(n)]++ })
